@@ -44,6 +44,8 @@ pub fn cells(tier: Tier) -> Vec<CellPlan> {
     v.push(plan(ticks_3c("C04", 0, q), 1, 2.0));
     // ... with the clients' update ticks on both sides of a varint size boundary (127 | 128)
     v.push(plan(ticks_3c("C04", 125, q), 1, 1.0));
+    // ... and of the last one (4 | 5 bytes)
+    v.push(plan(ticks_3c("C04", (1 << 28) - 3, q), if q { 0 } else { 1 }, 1.0));
     // Ticks from the timer policy (`MaxTickRate`): a tick every other frame, events and structural
     // changes inside one tick span.
     for (hz, dt) in [(50u16, 10u64), (30, 10)] {
